@@ -9,7 +9,6 @@ import (
 	"strings"
 	"sync/atomic"
 
-	"github.com/fullstorydev/grpchan/httpgrpc"
 	"google.golang.org/grpc"
 	"google.golang.org/grpc/credentials"
 	"google.golang.org/grpc/metadata"
@@ -45,7 +44,7 @@ func (c *countingRT) RoundTrip(r *http.Request) (*http.Response, error) {
 
 func checkC13(e *core.Env) {
 	curEnv = e
-	e.SetRule("matrix {http, https, in-process, http and https over a unix-domain socket, https with a client that does not verify the certificate chain} x {handler succeeds, handler fails with a status} x {creds require security, not} x 4 RPC kinds x credential metadata {disjoint, overlapping caller keys, empty, error} x {peer option, header option present/absent}, caller metadata random per cell; oracle: requests issued (counting RoundTripper), handler's incoming metadata = caller values then credential values per key, peer option and handler peer have an address and TLS auth info on TLS; distinct = matrix cells")
+	e.SetRule("matrix {http, https, in-process, http and https over a unix-domain socket, https with a client that does not verify the certificate chain, http through a TLS-configured transport, http on the IPv6 loopback} x {handler succeeds, handler fails with a status} x {creds require security, not} x 4 RPC kinds x credential metadata {disjoint, overlapping caller keys, empty, error} x {peer option, header option present/absent}, caller metadata random per cell; oracle: requests issued (counting RoundTripper), handler's incoming metadata = caller values then credential values per key, peer option and handler peer have an address and TLS auth info on TLS; distinct = matrix cells")
 	e.SetExhaustive(true)
 	plain := NewHTTPServer(&Service{}, carrierOpt{})
 	tls := NewHTTPServer(&Service{}, carrierOpt{tls: true})
@@ -55,6 +54,16 @@ func checkC13(e *core.Env) {
 	unixTLS := NewHTTPMux(&Service{}, carrierOpt{unix: true, tls: true})
 	tlsSkip := NewHTTPServer(&Service{}, carrierOpt{tls: true, skipVerify: true})
 	defer tlsSkip.Close()
+	// a plain-http back end reached through a transport that is configured for TLS (shared with https back ends)
+	plainTLSConf := NewHTTPServer(&Service{}, carrierOpt{tlsConfigured: true})
+	defer plainTLSConf.Close()
+	// IPv6 literal in the base URL (skipped where there is no IPv6 loopback)
+	v6 := NewHTTPMux(&Service{}, carrierOpt{ipv6: true})
+	if v6 != nil {
+		defer v6.Close()
+	} else {
+		e.Count("ipv6_loopback_unavailable", 1)
+	}
 	defer unixPlain.Close()
 	defer unixTLS.Close()
 	defer plain.Close()
@@ -65,7 +74,10 @@ func checkC13(e *core.Env) {
 		c      *Carrier
 		scheme string
 	}
-	carriers := []tcase{{plain, "http"}, {tls, "https"}, {tlsMux, "https"}, {inp, "inproc"}, {unixPlain, "http"}, {unixTLS, "https"}, {tlsSkip, "https"}}
+	carriers := []tcase{{plain, "http"}, {tls, "https"}, {tlsMux, "https"}, {inp, "inproc"}, {unixPlain, "http"}, {unixTLS, "https"}, {tlsSkip, "https"}, {plainTLSConf, "http"}}
+	if v6 != nil {
+		carriers = append(carriers, tcase{v6, "http"})
+	}
 	credKinds := []string{"disjoint", "overlap", "empty", "error"}
 	caseNo := 0
 	reps := e.N(3, 40)
@@ -128,11 +140,12 @@ func runC13Cell(e *core.Env, r *rand.Rand, c *Carrier, scheme string, secure boo
 		}
 		cell += fmt.Sprintf("|hdr=%d,trl=%d,peers=%d", sc.NHdrOpt, sc.NTrlOpt, 1+btoi(peer2 != nil))
 	}
+	// the channel uses the carrier's own *http.Transport (no wrapper: what kind of transport it is may matter);
+	// requests are counted where they arrive
 	cc := c.CC
-	var cnt *countingRT
+	var reqBefore int64
 	if c.HTTP {
-		cnt = &countingRT{inner: c.Transport}
-		cc = &httpgrpc.Channel{Transport: cnt, BaseURL: c.URL}
+		reqBefore = c.ReqCount.Load()
 	}
 	run := c.Svc.NewRun(sc, c.Name)
 	ok, _ := run.Exec(cc, nil, watchdog)
@@ -149,9 +162,9 @@ func runC13Cell(e *core.Env, r *rand.Rand, c *Carrier, scheme string, secure boo
 	_, handlerRan := run.HandlerReturn()
 	mustFail := (secure && scheme == "http") || ck == "error"
 	if mustFail {
-		nreq := int32(0)
-		if cnt != nil {
-			nreq = cnt.n.Load()
+		nreq := int64(0)
+		if c.HTTP {
+			nreq = c.ReqCount.Load() - reqBefore
 		}
 		if nreq != 0 || handlerRan {
 			e.Violate("creds/request-issued/"+scheme, fmt.Sprintf("%s: %d HTTP requests were issued / handler ran=%v although the credentials could not be applied", cell, nreq, handlerRan), w)
@@ -201,6 +214,8 @@ func runC13Cell(e *core.Env, r *rand.Rand, c *Carrier, scheme string, secure boo
 		}
 		if p == nil || p.Addr == nil || p.Addr.String() == "" {
 			e.Violate("peer/option-addr/"+scheme+"/"+kindClass(kind), cell+": grpc.Peer target has no address", w)
+		} else if c.HTTP && !unix && p.Addr.String() != c.URL.Host {
+			e.Violate("peer/option-addr-wrong/"+kindClass(kind), fmt.Sprintf("%s: grpc.Peer target reports %q, the server listens on %q", cell, p.Addr.String(), c.URL.Host), w)
 		} else if wantTLS {
 			if ti, ok := p.AuthInfo.(credentials.TLSInfo); !ok {
 				e.Violate("peer/option-tls/"+kindClass(kind), fmt.Sprintf("%s: grpc.Peer target auth info is %T on a TLS connection", cell, p.AuthInfo), w)
